@@ -113,6 +113,9 @@ AsCoded(e, i) ==
                ELSE IF dt.k = "scaled" /\ dt.r = 2 /\ dt.rep.k = "int"
                     THEN MatchesRConv(FloatToScaled(i.tag, FVal(e.l), st.p, AsIntT(dt.rep), dt.e), e.out, J(e.res))
                ELSE FALSE
+           ELSE IF st.k = "scaled" /\ dt.k = "int" /\ st.rep.k = "int" /\ st.e < 0
+                \* scaled -> built-in integer goes through scaled_integer<Integer, power<0>>
+                THEN MatchesRConv(ScaledToScaled(i.tag, J(e.l), AsIntT(st.rep), st.e, AsIntT(dt), 0, st.r, AsIntT(InnerT(i.res_t))), e.out, J(e.res))
            ELSE IF st.k = "scaled" /\ dt.k = "scaled" /\ st.rep.k = "int" /\ dt.rep.k = "int" /\ st.r = dt.r /\ dt.e > st.e
                 THEN MatchesRConv(ScaledToScaled(i.tag, J(e.l), AsIntT(st.rep), st.e, AsIntT(dt.rep), dt.e, st.r, AsIntT(InnerT(i.res_t))), e.out, J(e.res))
            ELSE FALSE
